@@ -1,5 +1,5 @@
 (* Misc/LockSpec.v — what "one live instance per database directory" means on the model of
-   Misc/Lock.v, for a code variant v (pinned / fixed / fixed_dirs).  All statements quantify over
+   Misc/Lock.v, for a code variant v (pinned / fixed / fixed_dirs / fixed_drop).  All statements quantify over
    arbitrary (unbounded) sequences of micro operations: every interleaving of the steps of any
    number of openers in any number of processes, with close / drop / process death anywhere. *)
 From Coq Require Import List Bool Arith.
@@ -51,8 +51,21 @@ Definition held_open_refused_stmt (v : variant) : Prop :=
     st_flock s = Some h -> st_op s o' = None ->
     let s2 := run v (open_ops o' p' opts') s in
     st_op s2 o' = None /\ st_flock s2 = Some h.
-(* what SHOULD also hold for a Tree dropped on a thread outside any tokio runtime *)
+(* the same for a Tree dropped on a thread outside any tokio runtime: once drop() has returned
+   (drop_detached_ops: the whole call) the next open succeeds — no ORuntimeGone, i.e. without waiting
+   for any runtime to be shut down.  Holds for the repaired code (F28), fails for the code before it
+   (there drop_detached_ops o changes exactly what [ODropDetached o] changes: Lock_proofs
+   drop_detached_ops_old, and the old form of the statement is kept below for the regression record). *)
 Definition detached_drop_reopens_stmt (v : variant) : Prop :=
+  forall (ops : list op) (o : oid) (r : opener) (o' : oid) (p' : proc) (opts' : oopts),
+    let s := run v ops s0 in
+    st_op s o = Some r -> o_pc r = PLive ->
+    let s1 := run v (drop_detached_ops o) s in
+    st_op s1 o' = None -> op_valid opts' = true ->
+    let s2 := run v (open_ops o' p' opts') s1 in
+    is_live s2 o' = true /\ st_flock s2 = Some o'.
+(* the statement as it stood before the repair (one micro operation, liveness only) *)
+Definition detached_drop_reopens_old_stmt (v : variant) : Prop :=
   forall (ops : list op) (o : oid) (r : opener) (o' : oid) (p' : proc) (opts' : oopts),
     let s := run v ops s0 in
     st_op s o = Some r -> o_pc r = PLive ->
@@ -60,6 +73,20 @@ Definition detached_drop_reopens_stmt (v : variant) : Prop :=
     st_op s1 o' = None -> op_valid opts' = true ->
     let s2 := run v (open_ops o' p' opts') s1 in
     is_live s2 o' = true.
+(* after the whole call the opener is gone, the kernel's lock is free, the release is logged *)
+Definition detached_drop_releases_stmt (v : variant) : Prop :=
+  forall (ops : list op) (o : oid) (r : opener),
+    let s := run v ops s0 in
+    st_op s o = Some r -> o_pc r = PLive ->
+    let s1 := run v (drop_detached_ops o) s in
+    st_op s1 o = None /\ st_flock s1 = None /\
+    st_log s1 = st_log s ++ [EvData o KShutdown; EvRelease o; EvGone o].
+(* the state "dropped, store kept alive by its background tasks" does not exist any more, under any
+   interleaving; hence the shutdown of a runtime never changes anything *)
+Definition never_detached_stmt (v : variant) : Prop :=
+  forall (ops : list op) (o : oid), pc_of (run v ops s0) o <> Some PDetached.
+Definition runtime_gone_changes_nothing_stmt (v : variant) : Prop :=
+  forall (ops : list op) (o : oid), let s := run v ops s0 in run v [ORuntimeGone o] s = s.
 
 (* 3. lock before recovery, release last: scanning the ghost log oldest-first with the current
       owner, every lock grant finds the lock free, every release is the owner's, and every event
